@@ -452,4 +452,12 @@ def k2(ctx, kr):
     kr.exhaustive = True
     kr.outside = ['longer insertions; several errors in one file']
 
-KERNELS = [k1, k3, k4, k5, k6, k2]
+
+# ---------------------------------------------------------------------------------------------- K7 no file named on the command line is dropped before it is checked
+@kernel('K7 cli.no_argument_dropped')
+def k7(ctx, kr):
+    """a file that never reaches the project cannot make the check fail: same kernel as C13-K6 (cli::create_project with the real enumerate_files and project)"""
+    from . import C13 as K13
+    K13._k6_run(ctx, kr, 'C03/K7')
+
+KERNELS = [k1, k3, k4, k5, k6, k2, k7]
